@@ -515,6 +515,7 @@ def ref_partial_ord(mir, ty):
     for n in ('lt', 'le', 'gt', 'ge'):
         P[r'<&+%s as PartialOrd>::%s' % (ty, n)] = rel(n)
         P[r'<%s as PartialOrd>::%s' % (ty, n)] = rel(n)
+        P[r'<&*Rc<%s> as PartialOrd>::%s' % (ty, n)] = rel(n)      # Rc is transparent in the value model
     def eqf(neg):
         def f(se, env, pc, a, b):
             a1, b1 = a, b
